@@ -209,7 +209,7 @@ def shapes(tier):
            ([(True, 2, 0), (True, 2, 2)], 2)]
     if tier != "quick":
         out += [([(True, 4, 2)], 3), ([(False, 2, 2), (True, 2, 2)], 3),
-                ([(True, 2, 2)], 5)]
+                ([(True, 2, 2)], 4)]
     return out
 
 
@@ -219,7 +219,7 @@ def worker(args):
     name = f"slow sync group {layout}, {cycles} cycles"
     try:
         st = pyrun.run("C30", name, make_harness(layout, cycles), res,
-                       maxtime=240,
+                       maxtime=900,
                        sig=lambda w: w.split(":")[-1].strip()[:70])
         res["samples"].append(dict(harness=name, **{
             k: st[k] for k in ("paths", "aborted", "decisions", "obligations",
@@ -237,7 +237,7 @@ def main(tier, replay_file=None):
         bounds=dict(terminals="1..2 terminals (FMMU / direct), process images "
                               "of 0..4 bytes (concrete), one 16-bit input and "
                               "output variable each",
-                    cycles="2 (thorough 3..5) cycles after start-up",
+                    cycles="2 (thorough 3..4) cycles after start-up",
                     per_cycle="input data returned by the bus, every returned "
                               "working counter (full 16 bits) and the values "
                               "devices write: symbolic",
